@@ -284,6 +284,7 @@ func runC02(c *Ctx) {
 	checkItemSetOps(c, p, "R02.8")
 	checkSymbolNamespace(c, p, "R02.9")
 	checkItemIdentity(c, p, "R02.8")
+	checkItemKeyInjective(c, p, "R02.8")
 	c.Assumptions = append(c.Assumptions, "FIRST sets, LR(1) closure and goto (GetFirstSets, FirstS, Closure, Goto, GetItemSets) compute the canonical collection — NOT decided: they are worklist algorithms over unbounded item sets",
 		"Parse terminates — NOT decided")
 	c.Trusted = append(c.Trusted, "go/ssa", "checker/sx.go", "the generated model's placeholder tables")
